@@ -685,8 +685,9 @@ impl Router {
                         let mut filter = f.path.clone();
                         let mut group = None;
 
-                        if let Some((grp, filter_path)) = extract_group(&f.path) {
-                            group = Some(grp);
+                        if let Some((_, filter_path)) = extract_group(&f.path) {
+                            // a shared subscription is identified by share name AND filter
+                            group = Some(f.path.clone());
                             filter = filter_path;
                         };
 
